@@ -92,3 +92,50 @@ func VT_C08_PullFoldMatchesList() {
 	cancel()
 	vt.Reach("done")
 }
+
+// Two backpressured subscribers of one collection with different predicates (positive values / every value) and one
+// writer: each folded stream equals List with its own predicate (a rewrite done for one predicate is not seen by the other).
+func VT_C08_TwoPredicates() {
+	v0 := vt.Int32("v0")
+	c := NewCollection(WithInitialRecord("a", &T8{DefaultInt32: v0}))
+	ctx, cancel := context.WithCancel(context.Background())
+	preds := []FilterFunc{vtMatches, func(string, proto.Message) bool { return true }}
+	views := []map[string]int32{{}, {}}
+	seen := []chan struct{}{make(chan struct{}), make(chan struct{})}
+	for i := 0; i < 2; i++ {
+		i := i
+		ch := c.Pull(ctx, WithInclude(preds[i]), WithBackpressure(true))
+		go func() {
+			for e := range ch {
+				if e.Id == "z" {
+					close(seen[i])
+					continue
+				}
+				switch e.ChangeType {
+				case types.ChangeType_REMOVE:
+					delete(views[i], e.Id)
+				default:
+					vt.Assert(e.NewValue != nil, "add-update-carry-a-new-value")
+					if e.NewValue != nil {
+						views[i][e.Id] = e.NewValue.(*T8).DefaultInt32
+					}
+				}
+			}
+		}()
+	}
+	c.Update("a", &T8{DefaultInt32: vt.Int32("v1")})
+	c.Add("z", &T8{DefaultInt32: 1}) // sentinel, matches both
+	<-seen[0]
+	<-seen[1]
+	for i := 0; i < 2; i++ {
+		list := c.List(WithInclude(preds[i]))
+		// list holds "z" and possibly "a"
+		_, hasA := views[i]["a"]
+		vt.Assert(hasA == (len(list) == 2), "each-subscriber-view-has-a-iff-its-filtered-list-has")
+		if hasA && len(list) == 2 {
+			vt.Assert(views[i]["a"] == list[0].(*T8).DefaultInt32, "each-subscriber-view-has-the-listed-value")
+		}
+	}
+	cancel()
+	vt.Reach("done")
+}
